@@ -108,7 +108,10 @@ SparseMatrixCSR<T>::SparseMatrixCSR(const SparseMatrixCSR& other)
 {
     std::copy(other.values_.get(), other.values_.get() + nnz_, values_.get());
     std::copy(other.column_indices_.get(), other.column_indices_.get() + nnz_, column_indices_.get());
-    std::copy(other.row_start_indices_.get(), other.row_start_indices_.get() + rows_ + 1, row_start_indices_.get());
+    if (other.row_start_indices_)
+        std::copy(other.row_start_indices_.get(), other.row_start_indices_.get() + rows_ + 1, row_start_indices_.get());
+    else
+        row_start_indices_[0] = 0;
 }
 
 // copy assignment
@@ -120,7 +123,7 @@ SparseMatrixCSR<T>& SparseMatrixCSR<T>::operator=(const SparseMatrixCSR& other)
         return *this;
     }
     // Only allocate new memory if the sizes are different
-    if (nnz_ != other.nnz_ || rows_ != other.rows_) {
+    if (nnz_ != other.nnz_ || rows_ != other.rows_ || !row_start_indices_) {
         values_            = std::make_unique<T[]>(other.nnz_);
         column_indices_    = std::make_unique<int[]>(other.nnz_);
         row_start_indices_ = std::make_unique<int[]>(other.rows_ + 1);
@@ -131,7 +134,10 @@ SparseMatrixCSR<T>& SparseMatrixCSR<T>::operator=(const SparseMatrixCSR& other)
     nnz_     = other.nnz_;
     std::copy(other.values_.get(), other.values_.get() + nnz_, values_.get());
     std::copy(other.column_indices_.get(), other.column_indices_.get() + nnz_, column_indices_.get());
-    std::copy(other.row_start_indices_.get(), other.row_start_indices_.get() + rows_ + 1, row_start_indices_.get());
+    if (other.row_start_indices_)
+        std::copy(other.row_start_indices_.get(), other.row_start_indices_.get() + rows_ + 1, row_start_indices_.get());
+    else
+        row_start_indices_[0] = 0;
     return *this;
 }
 
